@@ -2513,6 +2513,12 @@ func (db *DB) ApplyLTXNoLock(path string, fatalOnError bool) (retErr error) {
 			dbMode = DBModeWAL
 		}
 
+		// Likewise, return to rollback mode if the first page no longer has the
+		// WAL versions set (journal mode changed from WAL, or a non-WAL import).
+		if phdr.Pgno == 1 && (pageBuf[18] != 2 || pageBuf[19] != 2) {
+			dbMode = DBModeRollback
+		}
+
 		// Copy to database file.
 		if err := db.writeDatabasePage(dbFile, phdr.Pgno, pageBuf, true); err != nil {
 			return fmt.Errorf("write to database file: %w", err)
